@@ -100,12 +100,13 @@ def putParentsWeak (i : Nat) (t : FTree) (p : Path) : FTree :=
   (parents p).foldl (fun t d => match t.get d with | some _ => t | none => t.set d (implDir i)) t
 
 def ociApply (i : Nat) (t : FTree) (l : Layer) : FTree :=
-  -- the directory a whiteout entry sits in exists
-  let t := l.foldl (fun t e => if e.wh then putParentsWeak i t e.p else t) t
   -- whiteouts and opaque markers act on what the lower layers left
   let t := l.foldl (fun t e => if e.isOpq then t.rmChildren e.p.dropLast else if e.wh then t.rmTree e.p else t) t
   -- then the layer's own entries in tar order; their parents become directories
-  l.foldl (fun t e => if e.wh then t else put i t e) t
+  let t := l.foldl (fun t e => if e.wh then t else put i t e) t
+  -- the directory a whiteout entry sits in exists (tars that list a whiteout beneath a path they delete are
+  -- order-dependent in real extractors and outside `H`)
+  l.foldl (fun t e => if e.wh then putParentsWeak i t e.p else t) t
 
 def ociFrom (layers : List Layer) : Nat → FTree
   | 0 => []
